@@ -58,7 +58,30 @@ def mutate(rng, valid):
     body = valid[8:]
     tree = T.decode(valid, strict=False)
     nodes = list(T.walk(tree))
-    k = rng.randrange(20)
+    k = rng.randrange(23)
+    if k >= 20:
+        # a well-formed item of some other tag and type set into (or in place of) a child of a structure: fields a reader
+        # does not expect there, attributes of other KMIP versions, attributes the value factory does not build
+        structs = [(p, it) for p, it in nodes if it[1] == T.STRUCTURE and p]
+        attrs_ = [x for x in structs if x[1][0] in (0x420125, 0x420008, 0x420091, 0x42001F, 0x420065, 0x42006E, 0x42013B)]
+        if structs:
+            p, it = rng.choice(attrs_ if (attrs_ and rng.random() < 0.7) else structs)
+            tag = rng.choice((rng.randrange(0x420001, 0x420162), rng.randrange(0x420001, 0x420162), rng.choice((
+                0x4200FC, 0x4200FD, 0x4200FE, 0x420101, 0x42005D, 0x420028, 0x42002A, 0x42008D, 0x420074, 0x42000B, 0x540001))))
+            typ = rng.choice((T.INTEGER, T.LONG, T.BIGINT, T.ENUM, T.BOOL, T.TEXT, T.BYTES, T.DATETIME, T.INTERVAL, T.STRUCTURE))
+            val = {T.INTEGER: 1, T.LONG: 2, T.BIGINT: 3, T.ENUM: 1, T.BOOL: True, T.TEXT: 'zoo', T.BYTES: b'zoo', T.DATETIME: 1600000000,
+                   T.INTERVAL: 60, T.STRUCTURE: []}[typ]
+            kids = list(it[2])
+            i = rng.randrange(len(kids) + 1)
+            if kids and rng.random() < 0.3:
+                kids[min(i, len(kids) - 1)] = (tag, typ, val)
+            else:
+                kids.insert(i, (tag, typ, val))
+            try:
+                return 'foreign-item', T.encode(T.replace_at(tree, p, (it[0], it[1], kids)))
+            except Exception:
+                pass
+        k = rng.randrange(20)
     if k == 0:
         cut = rng.randrange(0, len(body))
         return 'truncate-anywhere', reframe(body[:cut])
@@ -269,7 +292,8 @@ def value_overrun(frame):
 
 def decodable(frame):
     try:
-        rig.decode_request(frame)
+        with rig.cpu_budget(20):        # a decoder that does not come back is not a decoder that accepted the frame
+            rig.decode_request(frame)
         return True
     except BaseException:
         return False
@@ -297,7 +321,9 @@ def run_stream(engine, frames, cert, rng, mode):
     while True:
         n += 1
         try:
-            sess._handle_message_loop()
+            # answering one frame takes milliseconds (about a second for a 2 MiB frame): 20 s of CPU time is a loop
+            with rig.cpu_budget(20):
+                sess._handle_message_loop()
         except exceptions.ConnectionClosed:
             break
         except BaseException as e:     # noqa
@@ -414,6 +440,11 @@ def run_case(ctx, case):
                     if esc is not None:
                         import traceback
                         from kv.monitors.logwatch import innermost_kmip_frame
+                        if isinstance(esc, rig.Runaway):
+                            # where the timer caught the loop varies from run to run: not part of the mechanism key
+                            ctx.violation('runaway|message-loop', 'the session did not answer a frame within 20 s of CPU time (stream %s; '
+                                          'interrupted in %s)' % (kinds, innermost_kmip_frame(esc.__traceback__)), detail)
+                            continue
                         ctx.violation('escaped|%s|%s' % (type(esc).__name__, innermost_kmip_frame(esc.__traceback__)),
                                       'exception %s: %s left _handle_message_loop (stream %s)' % (type(esc).__name__, str(esc)[:200], kinds),
                                       detail)
